@@ -27,6 +27,11 @@ CONSTANTS MaxCalls,
           RestoreOnError, \* TRUE: a refinement passed to propagate is taken back
                           \*   also when the propagation raises (the code:
                           \*   try / finally); FALSE: negative control
+          SplitCopies,    \* TRUE: PopulationPropagator.get_PropagationMatrix
+                          \*   (t, corrections >= 0) splits a COPY of the rate
+                          \*   matrix into depopulation and transfer parts
+                          \*   (the code); FALSE: it works on the array the
+                          \*   propagator (and its user) holds (negative control)
           NefRecomputes   \* TRUE: the initial-condition term of the
                           \*   non-equilibrium Foerster tensor is recomputed
                           \*   from the submitted state by every propagation
@@ -42,18 +47,20 @@ VARIABLES userNref,    \* refinement the user set with setDtRefinement (input)
           heomFree,    \* the hierarchy propagator would start its next
                        \* integration above level 0 (free-hierarchy mode left
                        \* switched on)
+          popRates,    \* "given" | "altered": the rate matrix held by the
+                       \* population propagator
           nefIc,       \* initial condition the stored inhomogeneous term of
                        \* the neF tensor was computed for (0 = none | 1 | 2)
           ncalls,
           lastDet,     \* was the last call's result determined by its inputs?
           lastCall
 
-vars == <<userNref, effNref, ado, hamProt, hamCut, nefIc, heomFree, ncalls,
-          lastDet, lastCall>>
+vars == <<userNref, effNref, ado, hamProt, hamCut, nefIc, heomFree, popRates,
+          ncalls, lastDet, lastCall>>
 
 Init == /\ userNref = 1 /\ effNref = 1 /\ ado = "empty"
         /\ hamProt = FALSE /\ hamCut = FALSE /\ nefIc = 0
-        /\ heomFree = FALSE
+        /\ heomFree = FALSE /\ popRates = "given"
         /\ ncalls = 0 /\ lastDet = TRUE /\ lastCall = "none"
 
 Tick == ncalls' = ncalls + 1
@@ -61,7 +68,7 @@ Tick == ncalls' = ncalls + 1
 \* prop.setDtRefinement(n): an explicit, documented input
 SetRefinement(n) ==
   /\ userNref' = n /\ effNref' = n
-  /\ UNCHANGED <<ado, hamProt, hamCut, nefIc, heomFree>>
+  /\ UNCHANGED <<ado, hamProt, hamCut, nefIc, heomFree, popRates>>
   /\ lastDet' = TRUE /\ lastCall' = "set_refinement" /\ Tick
 
 \* prop.propagate(rho, Nref=k); k = 1 means "argument not given"
@@ -70,7 +77,7 @@ RDMPropagate(k) ==
       want == IF k > 1 THEN k ELSE userNref IN
   /\ lastDet' = (used = want)
   /\ effNref' = IF k > 1 /\ NrefPersists THEN k ELSE effNref
-  /\ UNCHANGED <<userNref, ado, hamProt, hamCut, nefIc, heomFree>>
+  /\ UNCHANGED <<userNref, ado, hamProt, hamCut, nefIc, heomFree, popRates>>
   /\ lastCall' = "rdm_propagate" /\ Tick
 
 \* prop.propagate(rho, Nref=k, ...) that raises after the refinement was
@@ -80,7 +87,7 @@ RDMPropagateRaises(k) ==
   /\ k > 1
   /\ effNref' = IF RestoreOnError THEN effNref ELSE k
   /\ lastDet' = TRUE                          \* no result is returned
-  /\ UNCHANGED <<userNref, ado, hamProt, hamCut, nefIc, heomFree>>
+  /\ UNCHANGED <<userNref, ado, hamProt, hamCut, nefIc, heomFree, popRates>>
   /\ lastCall' = "rdm_propagate_raises" /\ Tick
 
 \* get_RelaxationTensor: protect, (subtract cut-off), build, (recover),
@@ -88,14 +95,14 @@ RDMPropagateRaises(k) ==
 BuildTensor(cutoff) ==
   /\ hamProt = FALSE /\ hamCut = FALSE          \* precondition = fresh values
   /\ lastDet' = TRUE
-  /\ UNCHANGED <<userNref, effNref, ado, hamProt, hamCut, nefIc, heomFree>>
+  /\ UNCHANGED <<userNref, effNref, ado, hamProt, hamCut, nefIc, heomFree, popRates>>
   /\ lastCall' = "build_tensor" /\ Tick
 
 \* KTHierarchyPropagator.propagate
 HeomPropagate ==
   /\ lastDet' = ((HeomResets \/ ado = "empty") /\ ~heomFree)
   /\ ado' = "used"
-  /\ UNCHANGED <<userNref, effNref, hamProt, hamCut, nefIc, heomFree>>
+  /\ UNCHANGED <<userNref, effNref, hamProt, hamCut, nefIc, heomFree, popRates>>
   /\ lastCall' = "heom_propagate" /\ Tick
 
 \* KTHierarchyPropagator.propagate(rho, free_hierarchy=True) (as the kernel
@@ -104,22 +111,36 @@ HeomPropagateFree ==
   /\ lastDet' = (HeomResets \/ ado = "empty")
   /\ ado' = "used"
   /\ heomFree' = ~FreeModeLocal
-  /\ UNCHANGED <<userNref, effNref, hamProt, hamCut, nefIc>>
+  /\ UNCHANGED <<userNref, effNref, hamProt, hamCut, nefIc, popRates>>
   /\ lastCall' = "heom_propagate_free" /\ Tick
 
-\* EvolutionSuperOperator.calculate, population and state-vector propagation:
+\* EvolutionSuperOperator.calculate, state-vector propagation:
 \* no hidden state is read or written
 Stateless(name) ==
   /\ lastDet' = TRUE
-  /\ UNCHANGED <<userNref, effNref, ado, hamProt, hamCut, nefIc, heomFree>>
+  /\ UNCHANGED <<userNref, effNref, ado, hamProt, hamCut, nefIc, heomFree, popRates>>
   /\ lastCall' = name /\ Tick
+
+\* PopulationPropagator.propagate: reads the rate matrix the propagator holds
+PopPropagate ==
+  /\ lastDet' = (popRates = "given")
+  /\ UNCHANGED <<userNref, effNref, ado, hamProt, hamCut, nefIc, heomFree, popRates>>
+  /\ lastCall' = "pop_propagate" /\ Tick
+
+\* PopulationPropagator.get_PropagationMatrix(sub-axis, corrections = c);
+\* c = 0 stands for "argument not given" (no perturbative orders requested)
+PopMatrix(c) ==
+  /\ lastDet' = (popRates = "given")
+  /\ popRates' = IF c > 0 /\ ~SplitCopies THEN "altered" ELSE popRates
+  /\ UNCHANGED <<userNref, effNref, ado, hamProt, hamCut, nefIc, heomFree>>
+  /\ lastCall' = "pop_matrix" /\ Tick
 
 \* propagation with the non-equilibrium Foerster tensor on ONE shared state
 \* object whose elements were set in place to initial condition ic
 NefPropagate(ic) ==
   /\ lastDet' = (NefRecomputes \/ nefIc \in {0, ic})
   /\ nefIc' = ic
-  /\ UNCHANGED <<userNref, effNref, ado, hamProt, hamCut, heomFree>>
+  /\ UNCHANGED <<userNref, effNref, ado, hamProt, hamCut, heomFree, popRates>>
   /\ lastCall' = "nef_propagate" /\ Tick
 
 Next ==
@@ -129,7 +150,8 @@ Next ==
   \/ RDMPropagateRaises(4)
   \/ \E c \in BOOLEAN : BuildTensor(c)
   \/ HeomPropagate \/ HeomPropagateFree
-  \/ \E nm \in {"eso_calculate", "pop_propagate", "sv_propagate",
+  \/ PopPropagate \/ \E c \in {0, 2} : PopMatrix(c)
+  \/ \E nm \in {"eso_calculate", "sv_propagate",
                  "nef_eso_calculate"} : Stateless(nm)
 
 Spec == Init /\ [][Next]_vars
